@@ -303,11 +303,18 @@ translation `0.001` that puts the plane through the averaged site), and all hypo
 `reported_maps_atoms_partial` hold with `lam = 1`, `tau = 0`; so does (H-d) of `reported_rotation_props`. -/
 theorem pipeRun : (runStages pipeCell (1 / 10) pipeHeur).toOption.map
       (fun st => (st.ops.map fun o => (o.rot, o.trans), st.prim.linear, st.prim.siteMapping,
-        hypsOk st (1 / 10) pipeHeur 1 0, hypsOkClosed st (1 / 10) pipeHeur 1 0, candDetOk pipeHeur,
-        hypsOkCluster st (1 / 10) pipeHeur 1 0 (1 / 10), hypsOkClusterClosed st (1 / 10) pipeHeur 1 0 (1 / 10),
-        clusterOk st.prim (1 / 10) pipeHeur.tcands (1 / 250))) =
+        hypsOk st (1 / 10) pipeHeur 1 0, hypsOkClosed st (1 / 10) pipeHeur 1 0, candDetOk pipeHeur)) =
     some ([(M3.one, ⟨0, 0, 0⟩), (pipeMirror, ⟨0, 0, 1 / 1000⟩), (M3.one, ⟨0, 0, 1 / 2⟩), (pipeMirror, ⟨0, 0, 501 / 1000⟩)],
-      ⟨1, 0, 0, 0, 1, 0, 0, 0, 2⟩, [0, 0], true, true, true, true, true, false) := by
+      ⟨1, 0, 0, 0, 1, 0, 0, 0, 2⟩, [0, 0], true, true, true) := by
+  decide +kernel
+
+/-- On the same run the hypotheses of the cluster theorems hold with `omega = symprec = 1/10` (both forms); the two
+atoms of the orbit lie `0.005` from the averaged site, so (H-w) holds down to `omega = 1/200` and fails for
+`omega = 1/250`. -/
+theorem pipeRunCluster : (runStages pipeCell (1 / 10) pipeHeur).toOption.map
+      (fun st => [hypsOkCluster st (1 / 10) pipeHeur 1 0 (1 / 10), hypsOkClusterClosed st (1 / 10) pipeHeur 1 0 (1 / 10),
+        clusterOk st.prim (1 / 10) pipeHeur.tcands (1 / 200), clusterOk st.prim (1 / 10) pipeHeur.tcands (1 / 250)]) =
+    some [true, true, true, false] := by
   decide +kernel
 
 def pipeCheck : Bool :=
